@@ -46,6 +46,18 @@ def check_all(t, names, counts, offsets, hows=("get_index", "floordiv", "getitem
     col = list(t[t._index])          # the CURRENT index column
     n = len(col)
     bad = []
+    # the labels FIRST (before any lookup of this check rebuilds whatever the table keeps): they must be the labels of the current column
+    try:
+        first_labels = list(t.cols.get_index_unique())
+        for i, lb in enumerate(first_labels):
+            nm = str(lb).split("::")[0]
+            if nm != str(col[i]) or (col.count(col[i]) > 1) != ("::" in str(lb)):
+                bad.append(("get_index_unique (first call after the update)", lb, "label of row %d" % i, str(col[i])))
+                break
+        if len(first_labels) != n:
+            bad.append(("get_index_unique (first call after the update)", "number of labels", len(first_labels), n))
+    except Exception as ex:
+        bad.append(("get_index_unique (first call after the update)", "raised", type(ex).__name__, None))
     for name in names:
         for count in counts:
             for offset in offsets:
@@ -161,6 +173,11 @@ def main():
                         try:
                             t.rows.get_index(t[t._index][0])      # warm the cache
                             t._get_cache()
+                        except Exception:       # noqa
+                            pass
+                        try:
+                            t.cols.get_index_unique()             # ... and whatever the labels are computed from / kept in
+                            t.show(output=str)
                         except Exception:       # noqa
                             pass
                         snap = (list(t["name"]), list(t._col_names), t._index)
